@@ -420,9 +420,50 @@ def conjseq_cases(tier):
     return out
 
 
+# ----------------------------------------------------------------------------- framer clocks inside clones
+#
+# `elapsed` / `recurred` are the clocks of the framer the condition is written in.  Inside a clone of a moot framer they
+# are the CLONE's own clocks (the moot original never runs: its clocks stay 0).
+
+def cloneclock_cases(tier):
+    out = []
+    horizon = 5
+    for place in ("plain", "named-clone", "insular-clone"):
+        me = "f" if place == "plain" else "mo"
+        for clock in ("elapsed", "recurred"):
+            goals = [0.25, 0.125] if clock == "elapsed" else [2, 1]
+            tolv = 0.125 if clock == "elapsed" else 1
+            for fname, head in (("bare", clock), ("re", clock + " re"), ("re-me", clock + " re me"), ("re-name", "%s re %s" % (clock, me))):
+                for neg in (False, True):
+                    for op in OPS:
+                        for tol in ([None, tolv] if op in ("==", "!=") else [None]):
+                            for goal in goals:
+                                cond = "%s %s %s" % (head, op, lit(goal))
+                                if tol is not None:
+                                    cond += " +- %s" % lit(tol)
+                                if neg:
+                                    cond = "not " + cond
+                                body = ["frame a", "  go b if " + cond, "frame b"]
+                                if place == "plain":
+                                    src = ["house h", "framer f be active first a"] + body
+                                    watch = "f"
+                                else:
+                                    how = "aux mo as cl" if place == "named-clone" else "aux mo as mine"
+                                    src = ["house h", "framer f be active first m", "frame m", "  " + how, "framer mo be moot first a"] + body
+                                    watch = "f_cl" if place == "named-clone" else "f_mo1"
+                                src += ["framer twin be active first x", "frame x", ""]
+                                out.append(dict(family="cloneclock-%s-%s" % (clock, place), cond=cond,
+                                                label="%s   [in %s]" % (cond, place), inits=[], pre=[], horizon=horizon,
+                                                text="\n".join(src), watch=watch, ownclock=True,
+                                                clauses=[("clock", clock, op, goal, tol, neg)],
+                                                group="cloneclock|%s|%s|%s|%s" % (clock, fname, place, op)))
+    return out
+
+
 def all_cases(tier):
     return (cmp_cases(tier) + field_cases(tier) + bool_cases(tier) + clock_cases(tier) + conj_cases(tier)
-            + clone_cases(tier) + script_cases(tier) + env_cases(tier) + conjseq_cases(tier))
+            + clone_cases(tier) + script_cases(tier) + env_cases(tier) + conjseq_cases(tier)
+            + cloneclock_cases(tier))
 
 
 def program(case):
@@ -544,8 +585,11 @@ def check_built(real, p, case):
     clocks, actives = [], []
     for t in rr.ticks:
         fm = dict((s[0], s) for s in t["framers"])
-        clocks.append((fm["twin"][6], fm["twin"][7]))
         w = fm.get(case.get("watch", "f"))
+        if case.get("ownclock") and w is not None and w[4] == case.get("start", "a"):
+            clocks.append((w[6], w[7]))      # still waiting in the start frame: its own clocks are the ones just evaluated
+        else:
+            clocks.append((fm["twin"][6], fm["twin"][7]))
         actives.append(w[4] if w is not None else "<no framer %s>" % case.get("watch"))
     took = None
     for k, a in enumerate(actives):
